@@ -150,6 +150,20 @@ pub fn c14(a: &Args) {
             jobs_list.push((runs + t, small.clone(), f.n, lines, j, t % 2 == 0, None));
         }
     }
+    // a straggler: one expensive request followed by more than a thousand cheap ones (the answers of the cheap
+    // requests pile up in the reorder buffer while the expensive one is still running)
+    {
+        let (f, _) = pick_model(&mut rng, 16);
+        let mpath = write_model(&a.out, "straggler", &f);
+        let base = jobs_list.len();
+        for t in 0..(if a.thorough() { 8 } else { 3 }) {
+            let mut lines: Vec<String> = (0..5).map(|_| "count".to_string()).collect();
+            lines.push(format!("random l {} s 7", if t % 2 == 0 { 100000 } else { 60000 }));
+            for i in 0..(1100 + rng.below(400)) { lines.push(if i % 3 == 0 { "count".to_string() } else { format!("count a {}", 1 + (i % f.n as usize)) }); }
+            let j = [4usize, 2, 8, 16, 3, 32, 6, 12][t % 8];
+            jobs_list.push((base + t, mpath.clone(), f.n, lines, j, t % 2 == 0, None));
+        }
+    }
     let outdir = a.out.clone();
     let par = 6;
     let chunks: Vec<Vec<_>> = (0..par).map(|k| jobs_list.iter().filter(|x| x.0 % par == k).cloned().collect()).collect();
@@ -215,11 +229,25 @@ pub fn c15(a: &Args) {
         let (mut d, n): (Ddnnf, u32) = if r % 3 == 2 { (vp9.clone(), 42) } else { let (f, _) = pick_model(&mut rng, 2); (load(&f).unwrap(), f.n) };
         let nq = match r % 6 { 0 => 0, 1 => 1 + rng.below(5), 2 => 50 + rng.below(100), 3 => 500 + rng.below(500), 4 => if a.thorough() { 4000 + rng.below(1000) } else { 1500 }, _ => 20 };
         let mut queries: Vec<String> = Vec::new();
+        let mut normal: Vec<String> = Vec::new();
         for _ in 0..nq {
             let len = match rng.below(10) { 0 => 0, 1..=5 => 1 + rng.below(3), 6..=8 => 4 + rng.below(12), _ => 21 + rng.below(10) };
             let q: Vec<i32> = (0..len).map(|_| { let v = 1 + rng.below(n as usize) as i32; if rng.chance(0.5) { v } else { -v } }).collect();
-            queries.push(fmt_ints(&q));
-            if rng.chance(0.1) { let dup = queries.last().unwrap().clone(); queries.push(dup); }
+            // mostly normal form; sometimes several blanks / a tab between the literals, an explicit '+', leading zeros
+            // or blanks around the line (the printed query is the parsed one, whatever the worker count)
+            let line = if rng.chance(0.12) && !q.is_empty() {
+                let mut sline = String::new();
+                if rng.chance(0.3) { sline.push(' '); }
+                for (i, l) in q.iter().enumerate() {
+                    if i > 0 { sline.push_str(match rng.below(3) { 0 => "  ", 1 => "\t", _ => " " }); }
+                    match rng.below(4) { 0 if *l > 0 => sline.push_str(&format!("+{}", l)), 1 => sline.push_str(&(if *l < 0 { format!("-0{}", -l) } else { format!("0{}", l) })), _ => sline.push_str(&l.to_string()) }
+                }
+                if rng.chance(0.3) { sline.push(' '); }
+                sline
+            } else { fmt_ints(&q) };
+            queries.push(line);
+            normal.push(fmt_ints(&q));
+            if rng.chance(0.1) { let dup = queries.last().unwrap().clone(); queries.push(dup); let dn = normal.last().unwrap().clone(); normal.push(dn); }
         }
         let qfile = format!("{}/queries{}.txt", a.out, r);
         std::fs::write(&qfile, queries.join("\n") + if queries.is_empty() { "" } else { "\n" }).unwrap();
@@ -253,7 +281,7 @@ pub fn c15(a: &Args) {
             let text = String::from_utf8_lossy(rf).to_string();
             for (i, line) in text.lines().enumerate().take(6) {
                 let ans = line.rsplit(',').next().unwrap_or("");
-                out.query("fmtline", &format!("{} {}", ans, queries[i]), &format!("{}\\n", line));
+                out.query("fmtline", &format!("{} {}", ans, normal[i]), &format!("{}\\n", line));
             }
             if r < 3 { out.sample(format!("{} queries, e.g. {:?} -> {:?}", queries.len(), queries.first(), text.lines().next())); }
         }
@@ -396,6 +424,53 @@ pub fn c17(a: &Args) {
         if r < 3 { out.sample(req.clone()); }
     }
     ddnnife::verif_hooks::set_callback(None);
+    // free running in process: the FIRST requests for fresh assumption keys, released together on clones of one
+    // instance by a spin barrier (a cursor slot that is created lazily must not be created twice)
+    {
+        let (f, tt) = pick_model(&mut rng, 60);
+        let n = f.n as i32;
+        // distinct keys (sorted by |literal|, as the cursor map normalises them) with at least 8 models each
+        let mut keys: Vec<Vec<i32>> = Vec::new();
+        let lits: Vec<i32> = (1..=n).flat_map(|v| [v, -v]).collect();
+        for &x in &lits { if tt.count_with(&[x]) >= 8 { keys.push(vec![x]); } }
+        for (i, &x) in lits.iter().enumerate() { for &y in &lits[i + 1..] { if x.abs() != y.abs() && tt.count_with(&[x, y]) >= 8 { keys.push(vec![x, y]); } } }
+        for (i, &x) in lits.iter().enumerate() { for (j, &y) in lits.iter().enumerate().skip(i + 1) { for &z in &lits[j + 1..] { if x.abs() != y.abs() && y.abs() != z.abs() && x.abs() != z.abs() && tt.count_with(&[x, y, z]) >= 8 && keys.len() < 4000 { keys.push(vec![x, y, z]); } } } }
+        let reps = if a.thorough() { 6 } else { 2 };
+        let threads = 4usize;
+        let mut violations = 0u64;
+        for rep in 0..reps {
+            let fresh = load(&f).unwrap();           // no key has a cursor yet
+            let keys = Arc::new(keys.clone());
+            let gate = Arc::new(std::sync::atomic::AtomicUsize::new(0));
+            let mut hs = Vec::new();
+            for _ in 0..threads {
+                let mut d = fresh.clone();
+                let keys = keys.clone();
+                let gate = gate.clone();
+                hs.push(std::thread::spawn(move || {
+                    let mut res: Vec<Option<Vec<Vec<i32>>>> = Vec::with_capacity(keys.len());
+                    for (r, k) in keys.iter().enumerate() {
+                        gate.fetch_add(1, std::sync::atomic::Ordering::SeqCst);
+                        while gate.load(std::sync::atomic::Ordering::SeqCst) < (r + 1) * 4 { std::hint::spin_loop(); }
+                        let mut a2 = k.clone();
+                        res.push(guarded(|| d.enumerate(&mut a2, 2)).ok().flatten());
+                    }
+                    res
+                }));
+            }
+            let all: Vec<Vec<Option<Vec<Vec<i32>>>>> = hs.into_iter().map(|h| h.join().unwrap_or_default()).collect();
+            for (r, k) in keys.iter().enumerate() {
+                out.count("first_request_races", 1);
+                if rep == 0 && r < 60 { out.eval(Some(format!("first-requests|{:?}", k))); } else { out.eval(None); }
+                let pages: Vec<&Option<Vec<Vec<i32>>>> = all.iter().filter_map(|t| t.get(r)).collect();
+                let mut seen = std::collections::HashSet::new();
+                let mut ok = pages.len() == threads && pages.iter().all(|p| p.as_ref().map(|p| p.len() == 2).unwrap_or(false));
+                for p in pages.iter().filter_map(|p| p.as_ref()) { for c in p { let mut c2 = c.clone(); c2.sort_by_key(|l| l.abs()); if !seen.insert(c2.clone()) { ok = false; } if tt.index_of(&c2).map(|i| !tt.bits[i]).unwrap_or(true) || !k.iter().all(|l| c2.contains(l)) { ok = false; } } }
+                if !ok { violations += 1; if violations <= 2 { out.fail("concurrent-first-requests", &f.text(), &format!("4 threads on clones of a fresh instance, each enumerate({:?}, 2), released together", k), &format!("{:?}", pages), "four disjoint pages of two models containing the assumptions"); } }
+            }
+        }
+        out.count("first_request_violations", violations);
+    }
     // free running: stream -j N fed several `enum l k` lines (workers share the cursor of the loaded model)
     let free_runs = if a.thorough() { 60 } else { 12 };
     for r in 0..free_runs {
